@@ -122,6 +122,20 @@ add("C09", "exploration",
     "only stressed, not explored. Known findings F7a-c (rollback across siblings / parallel graphs) are listed.",
     "DESIGN.md section 4 C09")
 
+add("C10", "exploration",
+    "multi-instance isolation monitor: every step on one instance is followed by inspection of all siblings, a fresh instance and the class",
+    "Classes covering every default kind (constant, list/dict copies, List/Dict/Set objects, callable-and-args, "
+    "factory, _x_default with call counters, Tuple/Union dynamic defaults, subclass overrides, comparison-mode "
+    "variants); histories over 3-5 instances created at different times (read, mutate own default container, "
+    "assign, del, handler registration of all three mechanisms, add_trait/remove_trait); after each step: first "
+    "reads return the declared default silently, later reads the identical object, default methods ran at most "
+    "once per epoch, mutable defaults are pairwise distinct and distinct from the class trait's stored object, "
+    "and nothing observable on other instances, a fresh instance or the class has changed.",
+    "Trusted: declared defaults as literals in the harness. Wildcard-name resolution is avoided (C13). Class-body "
+    "overrides of Any([..])/factory defaults in subclasses are documented to become shared constants "
+    "(TraitType.clone, enthought/traits#1630) and are outside the alphabet.",
+    "DESIGN.md section 4 C10")
+
 add("C11", "exploration",
     "interpreter-model monitor for deferred traits over random histories, with recorders on the deferring attribute",
     "DelegatesTo / PrototypedFrom x four prefix styles x listenable x chains of two deferrals x two candidate "
